@@ -2,7 +2,7 @@
 CBMC (directly on C, or on C generated from LLVM IR by ir2c), checks witness
 twins, replays counterexamples natively, matches known findings and writes the
 evidence file.  See /verif/DESIGN.md sections 1.4, 6 and 7."""
-import os, sys, json, re, subprocess, time, shutil, hashlib, resource, signal, glob
+import os, sys, json, re, subprocess, time, shutil, hashlib, resource, signal, glob, threading
 import concurrent.futures as cf
 
 VERIF = os.path.dirname(os.path.dirname(os.path.abspath(__file__)))
@@ -54,6 +54,7 @@ class Ob(object):
         self.func = kw.pop('func', None)          # engine == 'smt'
         self.ub_only = kw.pop('ub_only', ())
         self.weight = kw.pop('weight', 1)
+        self.cost = kw.pop('cost', 1)            # scheduling hint: expensive obligations are started first
         if kw:
             raise TypeError('unknown Ob arguments: %s' % list(kw))
 
@@ -205,6 +206,22 @@ class Runner(object):
         os.makedirs(self.work, exist_ok=True)
         self.known = load_known()
         self.t0 = time.time()
+        # solver processes that may run at the same time (set by run_property); an obligation's witness twin runs
+        # alongside its main query when a slot is free, after it otherwise
+        self.capacity = 1
+        self.busy = 0
+        self.slock = threading.Lock()
+
+    def slot_take(self, force):
+        with self.slock:
+            if force or self.busy < self.capacity:
+                self.busy += 1
+                return True
+            return False
+
+    def slot_give(self):
+        with self.slock:
+            self.busy -= 1
 
     def cleanup(self):
         if not self.keep:
@@ -299,6 +316,7 @@ class Runner(object):
         t0 = time.time()
         wdir = os.path.join(self.work, re.sub(r'[^A-Za-z0-9_.-]', '_', ob.name))
         os.makedirs(wdir, exist_ok=True)
+        self.slot_take(True)
         try:
             if ob.engine == 'smt':
                 ob.func(self, ob, res, wdir)
@@ -308,6 +326,8 @@ class Runner(object):
             import traceback
             res.status = 'inconclusive'
             res.reason = 'runner exception: %r\n%s' % (ex, traceback.format_exc()[-1200:])
+        finally:
+            self.slot_give()
         res.wall = time.time() - t0
         if not self.keep:
             for f in glob.glob(os.path.join(wdir, '*.gb')) + glob.glob(os.path.join(wdir, '*.json')):
@@ -319,7 +339,10 @@ class Runner(object):
 
     def _run_cbmc_ob(self, ob, res, wdir):
         build = self.build_c if ob.engine == 'c' else self.build_ir
+        ph = res.extra.setdefault('phase_s', {})
+        tb = time.time()
         gb, err = build(ob, wdir, False)
+        ph['build_and_translator_validation'] = round(time.time() - tb, 1)
         if gb is None:
             res.reason = err
             return
@@ -337,8 +360,26 @@ class Runner(object):
         cmd = self.cbmc_cmd(ob, gb, False)
         res.cmd = ' '.join(cmd).replace(wdir + '/', '')
         tmo = ob.timeout.get(self.tier, ob.timeout.get('thorough', 600))
+        wres = {}
+        wit_thread = None
+        if ob.witness and self.slot_take(False):
+            def wrun():
+                try:
+                    self._witness(ob, wdir, build, env, tmo, wres)
+                finally:
+                    self.slot_give()
+            wit_thread = threading.Thread(target=wrun)
+            wit_thread.start()
+        try:
+            self._main_query(ob, res, wdir, gb, cmd, tmo, env, ph, build, wres, wit_thread)
+        finally:
+            if wit_thread is not None and wit_thread.is_alive():
+                wit_thread.join()
+
+    def _main_query(self, ob, res, wdir, gb, cmd, tmo, env, ph, build, wres, wit_thread):
         rc, out, errt, wall, rss, to = sh(cmd + ['--verbosity', '8'], timeout=tmo, env=env, mem_kb=MEM_KB * (2 if getattr(ob, 'weight', 1) >= 4 else 1), cwd=wdir)
         res.rss_kb = rss
+        ph['cbmc'] = round(wall, 1)
         if to:
             res.reason = 'timeout after %ds' % tmo
             return
@@ -402,25 +443,47 @@ class Runner(object):
             res.status = 'pass'
         # witness twin
         if ob.witness and res.status == 'pass':
-            wgb, werr = build(ob, wdir, True)
-            if wgb is None:
+            if wit_thread is not None:
+                wit_thread.join()
+                wit_thread = None
+                ph['witness_ran_alongside'] = True
+            else:
+                self._witness(ob, wdir, build, env, tmo, wres)
+            ph.update(wres.get('phase', {}))
+            if wres.get('reason'):
+                res.witness_ok = wres.get('ok')
                 res.status = 'inconclusive'
-                res.reason = 'witness build failed: ' + str(werr)[-500:]
+                res.reason = wres['reason']
+            else:
+                res.witness_ok = True
+
+    def _witness(self, ob, wdir, build, env, tmo, wres):
+        """Builds and runs the witness twin (same harness, -DWITNESS: a final assert(0) behind the same assumptions, which the
+        solver must show reachable).  Fills wres: ok, reason (set when the obligation cannot count as non-vacuous), phase."""
+        try:
+            ph = wres.setdefault('phase', {})
+            tb = time.time()
+            wgb, werr = build(ob, wdir, True)
+            ph['witness_build'] = round(time.time() - tb, 1)
+            if wgb is None:
+                wres['reason'] = 'witness build failed: ' + str(werr)[-500:]
                 return
             wcmd = self.cbmc_cmd(ob, wgb, True)
             rc, out, errt, wall, rss, to = sh(wcmd, timeout=tmo, env=env, mem_kb=MEM_KB * (2 if getattr(ob, 'weight', 1) >= 4 else 1), cwd=wdir)
+            ph['witness_cbmc'] = round(wall, 1)
             wprops, _, wmsgs = parse_cbmc_json(out)
             wit = [p for p in (wprops or []) if 'WITNESS' in p.get('description', '')]
             if to or wprops is None or not wit:
-                res.witness_ok = False
-                res.status = 'inconclusive'
-                res.reason = 'witness twin gave no verdict (timeout=%s, %d witness properties)' % (to, len(wit))
+                wres['ok'] = False
+                wres['reason'] = 'witness twin gave no verdict (timeout=%s, %d witness properties)' % (to, len(wit))
                 return
             bad = [p for p in wit if p.get('status') != 'FAILURE']
-            res.witness_ok = not bad
+            wres['ok'] = not bad
             if bad:
-                res.status = 'inconclusive'
-                res.reason = 'VACUOUS: witness not reachable: ' + '; '.join(p.get('description', '') for p in bad)
+                wres['reason'] = 'VACUOUS: witness not reachable: ' + '; '.join(p.get('description', '') for p in bad)
+        except Exception as ex:
+            wres['ok'] = False
+            wres['reason'] = 'witness twin: runner exception %r' % (ex,)
 
     def loops_of(self, gb, funcs):
         """unwindset entries for every loop of the functions matched by the regex keys of funcs"""
@@ -549,10 +612,11 @@ def run_property(prop, obligations, tier, seed, level_note, keep=False):
     results = []
     t0 = time.time()
     # obligations that need several GiB each declare a weight: fewer of them run at the same time
-    jobs = max(1, min(NCPU // max([o.weight for o in obs] or [1]), len(obs)))
+    R.capacity = max(1, NCPU // max([o.weight for o in obs] or [1]))
+    jobs = max(1, min(R.capacity, len(obs)))
     try:
         with cf.ThreadPoolExecutor(max_workers=jobs) as ex:
-            futs = {ex.submit(R.run_ob, o): o for o in obs}
+            futs = {ex.submit(R.run_ob, o): o for o in sorted(obs, key=lambda o: -o.cost)}
             for fu in cf.as_completed(futs):
                 r = fu.result()
                 results.append(r)
